@@ -276,6 +276,29 @@ func scenarios() []*sched.Scenario {
 			vrt.Fail("task|accepted-not-run", "%d of %d accepted tasks ran", ran, n)
 		}
 	}})
+	// (F5) a pool created through a Group with cancel-on-shutdown explicitly switched off: the caller's option wins
+	// over the group's default, so a backlog that is pending at Shutdown still runs
+	out = append(out, &sched.Scenario{Name: "group/pool-with-cancel-off-runs-its-backlog", QuickMaxBound: 2, Run: func() {
+		g := workerpool.NewGroup("g")
+		p := g.CreatePool("p", workerpool.WithWorkerCount(1), workerpool.WithCancelPendingTasksOnShutdown(false))
+		gate := make(chan struct{})
+		ran := 0
+		p.Submit(func() { vrt.Recv(gate); ran++ })
+		p.Submit(func() { ran++ })
+		p.Submit(func() { ran++ })
+		vrt.Settle() // the worker is inside the first task, two tasks are queued behind it
+		sd := vrt.Spawn(func() { p.Shutdown() })
+		vrt.Settle()
+		vrt.Close(gate)
+		sd.Join()
+		p.ShutdownComplete.Wait()
+		if ran != 3 {
+			vrt.Fail("task|accepted-not-run", "%d of 3 accepted tasks ran on a pool whose cancel-on-shutdown option was switched off by the caller", ran)
+		}
+		if c := p.PendingTasksCounter.Get(); c != 0 {
+			vrt.Fail("counter|nonzero-after-shutdown", "pending counter is %d after shutdown completed", c)
+		}
+	}})
 	// (G) nested groups: every level must see the pools below it (root -> mid -> leaf -> pool)
 	out = append(out, &sched.Scenario{Name: "group/nested-waitchildren", QuickMaxBound: 2, Run: func() {
 		root := workerpool.NewGroup("root")
